@@ -11,7 +11,7 @@ use crate::project;
 
 pub struct Scripted {
     data: Vec<u8>,
-    pos: usize,
+    pub pos: usize,
     script: Vec<i64>,
     next: usize,
     pub calls: Vec<Value>,
@@ -85,9 +85,35 @@ pub fn cmd_reader() {
         let bytes: Vec<u8> = v["bytes"].as_array().unwrap().iter().map(|x| x.as_u64().unwrap() as u8).collect();
         let script: Vec<i64> = v["script"].as_array().map(|a| a.iter().map(|x| x.as_i64().unwrap()).collect()).unwrap_or_default();
         let plain0 = proj(catch_unwind(AssertUnwindSafe(|| Frame::from_bytes(&bytes))));
-        let mut rd = Scripted::new(bytes.clone(), script.clone());
+        // optionally the frame does not sit at the beginning of the reader: `prefix` junk bytes come first and the
+        // reader is positioned after them; `chain` decodes the same frame a second time from the same reader
+        // (two frames back to back)
+        let prefix = v["prefix"].as_u64().unwrap_or(0) as usize;
+        let chain = v["chain"].as_u64().unwrap_or(0) == 1;
+        let mut data: Vec<u8> = (0..prefix).map(|i| (i as u8).wrapping_mul(37).wrapping_add(11)).collect();
+        data.extend_from_slice(&bytes);
+        if chain {
+            data.extend_from_slice(&bytes);
+        }
+        let mut rd = Scripted::new(data, script.clone());
+        rd.pos = prefix;
         let r = catch_unwind(AssertUnwindSafe(|| Frame::from_reader(&mut rd)));
-        let (o, outcome) = proj(r);
+        let (mut o, mut outcome) = proj(r);
+        if chain && outcome == "ok" {
+            // the second frame starts where the first one ended (a whole frame is consumed, no more)
+            let flen = if bytes.first().map_or(false, |b| b & 0x80 != 0) { 14 } else { 7 };
+            if rd.pos != prefix + flen {
+                o = json!({"ok": 4, "consumed": rd.pos - prefix});
+                outcome = "misaligned";
+            } else {
+                let r2 = catch_unwind(AssertUnwindSafe(|| Frame::from_reader(&mut rd)));
+                let (o2, oc2) = proj(r2);
+                if o2 != o {
+                    o = o2;
+                    outcome = oc2;
+                }
+            }
+        }
         if let Some(b) = v["between"].as_array() {
             for other in b {
                 let ob: Vec<u8> = other.as_array().unwrap().iter().map(|x| x.as_u64().unwrap() as u8).collect();
